@@ -244,7 +244,7 @@ def check_read(case, ctx):
 def check_write(case, ctx):
     cg = ctx.cg
     cd = case["c"]
-    c = G.build(cg, cd, "graph")
+    c = G.build(cg, cd, "sparse" if len(cd["nodes"]) % 3 == 0 else "graph")  # sparse: non-outputs may lack the `output` attribute (fast parser, Circuit(graph=g))
     net = Net.of(c)
     has_const = any(t in ("0", "1") for t in net.types.values())
     ctx.count("write:with_constants" if has_const else "write:no_constants")
